@@ -75,6 +75,13 @@ def operations(tier):
         if MID not in o:
             ops.append(('&= ' + name, 'iand', o, lambda s, o=o: s & o))
             ops.append(('^= ' + name, 'ixor', o, lambda s, o=o: s ^ o))
+        if o and len(o) > 1:
+            # the same operators with a plain list of code points and (start, stop) ranges as right operand
+            ops.append(('|= list' + name, 'ior-list', o, lambda s, o=o: s | o))
+            ops.append(('-= list' + name, 'isub-list', o, lambda s, o=o: s - o))
+            if MID not in o:
+                ops.append(('^= list' + name, 'ixor-list', o, lambda s, o=o: s ^ o))
+                ops.append(('&= list' + name, 'iand-list', o, lambda s, o=o: s & o))
     ops_start = len(ops)
     for text, cov in (('\x00-\x03', frozenset({0, 1, 2, 3})), ('\x02', frozenset({2})), ('\x01\x03', frozenset({1, 3})),
                       ('\x04\x02\x03', frozenset({2, 3, 4}))):
@@ -139,6 +146,14 @@ def apply_op(s, kind, payload):
         s &= operand_subset(payload)
     elif kind == 'ixor':
         s ^= operand_subset(payload)
+    elif kind == 'ior-list':
+        s |= list(canonical(payload))
+    elif kind == 'isub-list':
+        s -= list(canonical(payload))
+    elif kind == 'ixor-list':
+        s ^= list(canonical(payload))
+    elif kind == 'iand-list':
+        s &= list(canonical(payload))
     elif kind == 'update':
         s.update(payload)
     elif kind == 'difference_update':
@@ -244,7 +259,7 @@ def run_subset(unit, tier, acc):
                               {'representation': repr(list(key)), 'canonical': repr(canonical(abstract)), 'reached_by': path_to(seen, key)},
                               {'part': 'subset', 'path': path_to(seen, key)})
         for label, kind, payload, fn in ops:
-            if kind == 'iand' and MID in abstract:
+            if kind in ('iand', 'iand-list') and MID in abstract:
                 continue      # '&=' walks every code point of the left operand: only applied to sets without the middle block
             try:
                 s2 = apply_op(mk(key), kind, payload)
@@ -653,6 +668,50 @@ def run_versions(unit, tier, acc):
     acc.sample({'versions': versions})
 
 
+_BLOCK_TABLES = {}
+
+
+def model_blocks(version):
+    """Reference block table of a Unicode version: the base table of Unicode 2.0.0 with the per-version updates up to `version` folded in.
+    The tables are read from a PRIVATE execution of the data module's source file, so nothing the library does to its own (shared, mutable)
+    module-level tables at import time or during installs can influence the reference."""
+    import runpy
+    from elementpath.regex import unicode_blocks as UB
+    if 'mod' not in _BLOCK_TABLES:
+        _BLOCK_TABLES['mod'] = runpy.run_path(UB.__file__)
+    mod = _BLOCK_TABLES['mod']
+    vinfo = tuple(int(x) for x in version.split('.'))
+    blocks = dict(mod['UNICODE_BLOCKS_VER_2_0_0'])
+    ups = sorted((tuple(int(x) for x in k[len('UPDATE_BLOCKS_VER_'):].split('_')), k) for k in mod if k.startswith('UPDATE_BLOCKS_VER_'))
+    for vi, k in ups:
+        if vi <= vinfo:
+            blocks.update(mod[k])
+    return {k.replace(' ', '').replace('_', ''): v for k, v in blocks.items()}
+
+
+def block_table_checks(acc, version, how):
+    """the installed block table equals the reference one: same names, same spans"""
+    from elementpath.regex import unicode_subsets as US
+    from elementpath.regex import UnicodeSubset
+    ud = [v for k, v in vars(US).items() if k.endswith('__unicode_data')][0]
+    want = model_blocks(version)
+    got = {k: v for k, v in ud._blocks.items() if k != 'NoBlock'}
+    acc.ev()
+    acc.cmp()
+    extra, missing = sorted(set(got) - set(want)), sorted(set(want) - set(got))
+    if extra or missing:
+        acc.violation('C13|block-table|%s' % ('names-of-another-version' if extra else 'names-missing'), 'Unicode %s installed %s' % (version, how),
+                      {'defined_but_not_in_this_version': extra[:8], 'missing': missing[:8]}, {'part': 'install-history'})
+        return
+    for k in want:
+        a = got[k] if isinstance(got[k], str) else None
+        sa = list(UnicodeSubset(want[k])._codepoints)
+        sb = list(got[k]._codepoints) if a is None else list(UnicodeSubset(a)._codepoints)
+        if sa != sb:
+            acc.violation('C13|block-table|span-differs', 'Unicode %s installed %s: block %s' % (version, how, k), {'expected': repr(sa)[:80], 'observed': repr(sb)[:80]}, {'part': 'install-history'})
+            return
+
+
 def run_install_history(unit, tier, acc):
     """S: histories install(v1) ; use the lazy \\d \\w subsets ; install(v2) ; the subsets must be those of v2 (and of the
     interpreter's version after the final restore); every installed version gets the structural checks, incl. the fallback
@@ -692,8 +751,10 @@ def run_install_history(unit, tier, acc):
                     acc.violation('C13|install-history|lazy-subsets-not-refreshed', 'install_unicode_data(%r); use \\d,\\w; install_unicode_data(%r); use \\d,\\w' % (v1, v2),
                                   {'Nd_entries_expected': len(want[0]), 'd_shortcut_entries': len(got[0])}, {'part': 'install-history'})
                 structure_checks(acc, v2)
+                block_table_checks(acc, v2, 'after %s' % v1)
     finally:
         US.install_unicode_data()
+    block_table_checks(acc, US.unicode_version(), 'as the restored default after %s' % ', '.join(vs))
     got, want = touch(), expect()
     if got != want:
         acc.violation('C13|install-history|not-restored', 'after install_unicode_data()', {}, {'part': 'install-history'})
